@@ -132,3 +132,10 @@ CHECKS["C18"] = {
          "rule": "native go fuzzing of V1NodeEncryptor.Decrypt seeded with valid ciphertexts of both formats: never panics; whatever it accepts must be byte-identical to a message sealed (by the encryptor, by the harness's sealer for the earlier format, or by NaCl secretbox) from the returned plaintext under the nonce in front; distinct non-trivial = inputs that reached new coverage"},
     ],
 }
+
+CHECKS["C17"] = {
+    "level": "exploration",
+    "subs": [
+        _sub("TestC17_KV", 5000, 200000, sq=16, st=16),
+    ],
+}
